@@ -234,13 +234,61 @@ namespace c07
       return c;
    }
 
+   // buffer_input that records how far beyond the last discard point every request reaches.  The documentation ("Buffer Details")
+   // guarantees that at least `maximum` bytes can be buffered after a call to discard(), even when it does nothing (and from the
+   // start of the input): std::overflow_error is only a permitted deviation when the request really exceeds that.
+   template< typename Reader, typename Eol, typename Source, std::size_t Chunk >
+   struct tracked_buffer_input : pegtl::buffer_input< Reader, Eol, Source, Chunk >
+   {
+      using base_t = pegtl::buffer_input< Reader, Eol, Source, Chunk >;
+      using base_t::base_t;
+
+      std::size_t last_discard = 0;  // byte offset of the cursor at the last call of discard()
+      std::size_t last_need = 0;     // bytes after the last discard point that the most recent request needs buffered
+      std::size_t max_need = 0;
+
+      void discard() noexcept
+      {
+         last_discard = this->byte();
+         base_t::discard();
+      }
+      void require( const std::size_t amount )
+      {
+         last_need = this->byte() + amount - last_discard;
+         if( last_need > max_need ) {
+            max_need = last_need;
+         }
+         base_t::require( amount );
+      }
+      [[nodiscard]] bool empty()
+      {
+         require( 1 );
+         return this->buffer_occupied() == 0;
+      }
+      [[nodiscard]] std::size_t size( const std::size_t amount )
+      {
+         require( amount );
+         return this->buffer_occupied();
+      }
+      [[nodiscard]] const char* end( const std::size_t amount )
+      {
+         require( amount );
+         return this->current() + this->buffer_occupied();
+      }
+   };
+
    template< typename G, template< typename... > class Action, typename Eol, std::size_t Chunk >
    void buffer_variant( const char* gname, const std::string& input, const params& P, const trace& base, mismatch& out, bool has_discard )
    {
       trace t;
       std::uint64_t calls = 0;
-      pegtl::buffer_input< pattern_reader, Eol, std::string, Chunk > in( "c07", P.maximum, pattern_reader{ input.data(), input.size(), P.pattern, &calls } );
+      tracked_buffer_input< pattern_reader, Eol, std::string, Chunk > in( "c07", P.maximum, pattern_reader{ input.data(), input.size(), P.pattern, &calls } );
       run_on< G, Action >( in, t );
+      if( t.k == 3 && in.last_need <= P.maximum && !out.bad ) {
+         out.bad = true;
+         out.sig = std::string( "buffer_input<Chunk=" ) + std::to_string( Chunk ) + ">/" + gname + ":spurious-overflow_error";
+         out.detail = "std::overflow_error although the request needs only " + std::to_string( in.last_need ) + " bytes buffered after the last discard point (byte " + std::to_string( in.last_discard ) + ") and maximum is " + std::to_string( P.maximum ) + "   [memory_input: " + base.summary() + "]";
+      }
       ++cnt().runs;
       if( calls >= 2 ) {
          ++cnt().buffer_runs_with_refill_while_buffered;
